@@ -194,28 +194,27 @@ theorem frame_set (d d' : Doc) (id : ObjId) (o : Obj) (out : Out) (h : step d (.
   refine ⟨rfl, ?_⟩
   intro k hk; simp [Objects.get_insert, Ne.symm hk]
 
-/-- `delete_object`: the object is gone, every unvisited object is untouched, every visited one is
-rewritten once by the action (which strips the first array occurrence and direct dictionary entries only) -/
+/-- `delete_object` (since the fix of F-C11-a): the object is gone, direct trailer entries pointing at it are
+removed, every unvisited object is untouched, every visited one is rewritten once by the action — which
+strips EVERY array occurrence and the direct entries of plain and stream dictionaries -/
 theorem delete_effect (d : Doc) (id : ObjId) :
     (deleteObject d id).1.objects.get id = none ∧
-    (deleteObject d id).1.trailer = deepDict (delAct id) d.trailer ∧
+    (deleteObject d id).1.trailer = deepDict (delAct id) (stripDict id d.trailer) ∧
     ∀ k, k ≠ id → (deleteObject d id).1.objects.get k =
-      if k ∈ (traverse (delAct id) d.trailer d.objects).2.2 then (d.objects.get k).map (deepObj (delAct id))
+      if k ∈ (traverse (delAct id) (stripDict id d.trailer) d.objects).2.2 then (d.objects.get k).map (deepObj (delAct id))
       else d.objects.get k := by
-  have hv := traverse_visits_once (delAct id) d.trailer d.objects
+  have hv := traverse_visits_once (delAct id) (stripDict id d.trailer) d.objects
   refine ⟨by simp [deleteObject, Objects.get_remove], hv.1, ?_⟩
   intro k hk
   simp only [deleteObject, Objects.get_remove, Ne.symm hk, if_false]
   exact hv.2.2 k
 
-/-- **F-C11-a (counter-witness).** A reference held directly in the trailer survives `delete_object`:
-the action is applied to the trailer's *values*, and a bare reference is neither an array nor a dictionary. -/
-theorem delete_leaves_trailer_ref_witness (os : Objects) :
-    (deleteObject ⟨[([73], .ref 5 0)], os, 9, [], []⟩ (5, 0)).1.trailer = [([73], .ref 5 0)] := by
+/-- (F-C11-a, trailer position, fixed) a reference held directly in the trailer is removed by `delete_object` -/
+theorem delete_strips_trailer_example (os : Objects) :
+    (deleteObject ⟨[([73], .ref 5 0)], os, 9, [], []⟩ (5, 0)).1.trailer = [] := by
   rw [(delete_effect _ _).2.1]
-  rw [deepDict, deepObj_other] <;> simp [delAct, delFn, deepDict]
-
-
+  have : stripDict (5, 0) [([73], Obj.ref 5 0)] = [] := by decide
+  rw [this, deepDict]
 
 /-! ### resources and content -/
 
@@ -327,9 +326,8 @@ theorem addXObject_monotone_partial (d : Doc) (pg : ObjId) (name : Bytes) (xid :
       rw [(withEntry_monotone _ [] kXObject name _).1 c hc, Dict.get_set_c11]; simp [Ne.symm hc]
     · intro sd h0; rw [hnone] at h0; cases h0
 
-/-- **F-C11-e (counter-witness).** Page 2 has no own `Resources` and inherits `/Font /F1` from its parent 3.
-`add_xobject` gives the page an own `Resources` whose only key is `XObject`: the dictionary in effect for
-the page (the nearest one up the Parent chain) no longer contains `Font`. -/
+/-- (F-C11-e fixed) Page 2 has no own `Resources` and inherits `/Font /F1` from its parent 3: `add_xobject`
+gives the page an own `Resources` that starts as a copy of the inherited one, so `Font` stays in effect. -/
 def wres : Doc :=
   { trailer := [], maxId := 5, bookmarks := [], bmTable := [],
     objects := [((2,0), .dict [(TYPE, .name PAGE), (PARENT, .ref 3 0)]),
@@ -337,10 +335,10 @@ def wres : Doc :=
                                (kResources, .dict [([70,111,110,116], .dict [([70,49], .ref 5 0)])])]),
                 ((5,0), .dict [])] }
 
-theorem inherited_shadowed_witness :
+theorem inherited_kept_example :
     ((wres.objects.get (2,0)).bind Obj.asDict).bind (fun pd => Dict.get pd kResources) = none ∧
     ((((addXObject wres (2,0) [73,109,49] (5,0)).1.objects.get (2,0)).bind Obj.asDict).bind
-        (fun pd => (Dict.get pd kResources).bind Obj.asDict)).map Dict.keys = some [kXObject] := by
+        (fun pd => (Dict.get pd kResources).bind Obj.asDict)).map Dict.keys = some [[70,111,110,116], kXObject] := by
   constructor <;> decide
 
 /-- decoding of a stream as `get_page_content` needs it here: no filter, or FlateDecode through the codec -/
